@@ -131,6 +131,17 @@ CHECKS = {
              'no operation may run longer than 2 s (huge exponents in a killable child).',
         note='trusted: the digit-size measure stated in the evidence assumptions; watchdog timing (2 s, far above normal cost)',
         design='4/C04'),
+    'C05': dict(
+        engine='E2',
+        technique='exhaustive enumeration of a regex-tree pattern grammar x subjects x flags x builtins; timeout arguments observed '
+                  'through a seam on the regex module (deterministic) + wall time in killable child processes with confirmation runs',
+        text='Every pattern of the grammar (atoms x nested quantifiers x sequence/alternation x suffix x prefix, two-group and fuzzy '
+             'forms) is compiled alone and run through match / match_groups / match_all on subjects up to 10^5 characters with each '
+             'flag string, in killable children; every engine call must carry a timeout in (0, 0.1] and the timeouts of one builtin call '
+             'must sum to <= 0.1 s; wall time must stay below 1.05 s + 10 us/char (confirmed by re-runs). Complete within the grammar; '
+             'the compile-phase hang is a listed known finding.',
+        note='trusted: the regex engine honours its timeout; oracle 2 reads a clock (wide margin + confirmation runs)',
+        design='4/C05'),
 }
 
 NOT_YET = {}
